@@ -159,6 +159,47 @@ pub fn run(args: &Args) -> i32 {
             }
         }
     }
+    // projects with unusual but convertible values: paths that make the tools talk (checker warnings, defaults, log lines)
+    for d in project_dirs() {
+        let name = d.file_name().unwrap().to_string_lossy().to_string();
+        if !["cubo", "casoA", "ejemploviv_unif"].contains(&name.as_str()) {
+            continue;
+        }
+        let edits: [(&str, &str, &str); 4] = [
+            ("negative-tb-length", "LONG-TOTAL = ", "LONG-TOTAL = -"),
+            ("zero-setback", "SETBACK        = ", "SETBACK        = 0"),
+            ("tiny-window", "WIDTH          = ", "WIDTH          = 0.00"),
+            ("odd-absorptance", "ABSORPTANCE = ", "ABSORPTANCE = 7"),
+        ];
+        for (tag, from, to) in edits {
+            let dst = tmp.join(format!("{name}-{tag}"));
+            copy_dir(&d, &dst, &[]);
+            if let Ok(Some(f)) = hulc::ctehexml::find_ctehexml(&dst.to_string_lossy()) {
+                if let Ok(bytes) = std::fs::read(&f) {
+                    let text: String = bytes.iter().map(|b| *b as char).collect();
+                    // every occurrence after the first 3 (keeps the file mostly intact), at most 5 of them
+                    let mut out = String::new();
+                    let mut rest = text.as_str();
+                    let mut k = 0;
+                    while let Some(pos) = rest.find(from) {
+                        out.push_str(&rest[..pos]);
+                        k += 1;
+                        out.push_str(if (4..=8).contains(&k) { to } else { from });
+                        rest = &rest[pos + from.len()..];
+                    }
+                    out.push_str(rest);
+                    if k >= 4 {
+                        let b2: Vec<u8> = out.chars().map(|c| c as u32 as u8).collect();
+                        if std::fs::write(&f, b2).is_ok() {
+                            for extra in [false, true] {
+                                run_tool(&mut cw, &bindir, &format!("project:{name}:{tag}:{}", if extra { "extra" } else { "default" }), &dst.to_string_lossy(), extra);
+                            }
+                        }
+                    }
+                }
+            }
+        }
+    }
     // directories without a project
     let empty = tmp.join("empty");
     std::fs::create_dir_all(&empty).ok();
